@@ -9,4 +9,5 @@ def cases(seed, tier):
     out += [case_marginal(PROPERTY, *s, tag="/pdiag") for s in pdiag_grid(seed, "C08", tier)]
     out += [case_marginal(PROPERTY, *s, tag="/upd") for s in upd_grid(seed, "C08", tier)]
     out += [case_marginal(PROPERTY, *s, tag=t) for s, t in ctor_grid(seed, "C08", tier)]
+    out += [case_marginal(PROPERTY, *s, tag="/hd") for s in hd_grid(seed, "C08", tier)]
     return seeded(out, seed)
